@@ -35,6 +35,13 @@ CLAIMS = {
          "Sampled; bound derived in DESIGN.md, not tuned.",
          "Trusted: vf/oracle_fgg.py (TorchEval Newton reference verified by residual; NumEval Kleene), torch autograd/linalg, Hypothesis.",
          "DESIGN.md section 5, C02"),
+ 'C04': ("Hypothesis-generated grammars with log-weights vs. own well-formedness predicate and exact max-plus reference (validity predicate + differential oracle; ties accepted)",
+         "For generated recursive (log-weights <= 0, incl. weight-one cycles) and non-recursive grammars and every start assignment with a finite "
+         "optimum, the FGGDerivation returned by viterbi is checked recursively for well-formedness (rule membership, one child per nonterminal "
+         "edge, total in-range assignment, externals agree with the parent), its own log-weight and the log-weight of derive()'s graph+assignment "
+         "must equal the exact Kleene max-plus optimum and the Viterbi-semiring sum_product. Any exception is a failure. Sampled, bounded sizes.",
+         "Trusted: vf/oracle_fgg.py NumEval(MaxPlus) Kleene reference, the predicate in vf/props/c04.py, Hypothesis.",
+         "DESIGN.md section 5, C04"),
 }
 
 NOT_YET = {}   # id -> reason (filled while the framework is being built)
